@@ -136,6 +136,13 @@ func (calc *RewardCalculator) numofMoreBlocksBeforeYearClose() (int64, int) {
 			// calculate how many more blocks proportionally
 			cycle := calc.options.BlockSpeedCalculateCycle
 			numofMoreBlocks = int64(float64(secsToClose*cycle) / float64(secsPerCycle))
+			// The amount stays in force for a whole cycle. A forecast of fewer
+			// blocks than that (after a slow or stalled cycle) would distribute
+			// more than is left of the year before it is calculated again, and
+			// a forecast of zero would end the whole schedule for good.
+			if numofMoreBlocks < cycle {
+				numofMoreBlocks = cycle
+			}
 			if numofMoreBlocks == 0 {
 				// this shouldn't happen if YearCloseWindow is set propoerly
 				continue
